@@ -354,7 +354,8 @@ def parseCfg (s : String) : Option Cfg :=
 
 def parseFault (s : String) : Option Fault :=
   if s = "close" then some .close else if s = "nack" then some .nack else if s = "stall" then some .stall
-  else if s.startsWith "garbage:" then (parseHex (s.drop 8).toString).map .garbage else none
+  else if s.startsWith "garbage:" then (parseHex (s.drop 8).toString).map .garbage
+  else if s.startsWith "late:" then (s.drop 5).toString.toNat?.map .late else none
 
 def parseScript (s : String) : Option World :=
   let toks := (s.splitOn " ").filter (fun t => t ≠ "" ∧ t ≠ "-")
